@@ -19,7 +19,7 @@ sa_type_names = [
 ]
 
 
-class RenderError(Exception):
+class RenderError(NotImplementedError):
     ...
 
 
@@ -175,10 +175,14 @@ class SqlalchemyRender:
                 "or": sa.or_,
             }
 
-            arg0 = self.to_expression(t.args[0])
-            arg1 = self.to_expression(t.args[1])
-
             op = t.op.lower()
+            arg0 = self.to_expression(t.args[0])
+            if op in ('in', 'not in') and isinstance(t.args[1], ast.Tuple):
+                # list of values
+                arg1 = [self.to_expression(i) for i in t.args[1].items]
+            else:
+                arg1 = self.to_expression(t.args[1])
+
             if op in ('in', 'not in'):
                 if isinstance(arg1, sa.sql.selectable.ColumnClause):
                     raise NotImplementedError(f'Required list argument for: {op}')
@@ -282,7 +286,10 @@ class SqlalchemyRender:
             arg = self.to_expression(t.arg)
             type = self.get_type(t.type_name)
             if t.precision is not None:
-                type = type(*t.precision)
+                try:
+                    type = type(*t.precision)
+                except TypeError as e:
+                    raise NotImplementedError(f'Type {t.type_name}{tuple(t.precision)}: {e}')
             col = sa.cast(arg, type)
 
             if t.alias:
@@ -290,12 +297,13 @@ class SqlalchemyRender:
                 col = col.label(alias)
         elif isinstance(t, ast.Parameter):
             col = sa.column(t.value, is_literal=True)
-            if t.alias: raise Exception()
+            if t.alias:
+                raise NotImplementedError('Parameter with alias')
         elif isinstance(t, ast.Tuple):
-            col = [
+            col = sa.tuple_(*[
                 self.to_expression(i)
                 for i in t.items
-            ]
+            ])
         elif isinstance(t, ast.Variable):
             col = sa.column(t.to_string(), is_literal=True)
         elif isinstance(t, ast.Latest):
@@ -333,7 +341,10 @@ class SqlalchemyRender:
         return sa.case(*conditions, else_=default, value=value)
 
     def to_function(self, t):
-        op = getattr(sa.func, t.op)
+        try:
+            op = getattr(sa.func, t.op)
+        except AttributeError:
+            raise NotImplementedError(f'Function name: {t.op}')
         if t.from_arg is not None:
             arg = t.args[0].to_string()
             from_arg = self.to_expression(t.from_arg)
@@ -347,7 +358,10 @@ class SqlalchemyRender:
             if t.distinct:
                 # set first argument to distinct
                 args[0] = args[0].distinct()
-            fnc = op(*args)
+            try:
+                fnc = op(*args)
+            except TypeError as e:
+                raise NotImplementedError(f'Function {t.op}: {e}')
         return fnc
 
     def get_type(self, typename):
@@ -361,7 +375,9 @@ class SqlalchemyRender:
             typename = 'BIGINT'
         if re.match('^FLOAT[\d]*$', typename):
             typename = 'FLOAT'
-        type = self.types_map[typename]
+        type = self.types_map.get(typename)
+        if type is None:
+            raise NotImplementedError(f'Unknown type: {typename}')
         return type
 
     def prepare_join(self, join):
@@ -400,10 +416,15 @@ class SqlalchemyRender:
                 # TODO tests is failing
                 raise NotImplementedError(f'Path to long: {table_name.parts}')
 
+            if not all(isinstance(i, str) for i in parts):
+                raise NotImplementedError(f'Table name: {table_name}')
+
             if len(parts) == 2:
                 schema = parts[-2]
 
             table_name = parts[-1]
+        elif not isinstance(table_name, str):
+            raise NotImplementedError(f'Table name: {table_name}')
 
         return schema, table_name
 
@@ -425,7 +446,7 @@ class SqlalchemyRender:
 
         else:
             # TODO tests are failing
-            raise NotImplementedError(f'Table {node.__name__}')
+            raise NotImplementedError(f'Table {node.__class__.__name__}')
 
         return table
 
@@ -577,18 +598,23 @@ class SqlalchemyRender:
     def prepare_create_table(self, ast_query):
         columns = []
 
+        if ast_query.columns is None:
+            raise NotImplementedError('Create table from select')
+
         for col in ast_query.columns:
             default = None
             if col.default is not None:
                 if isinstance(col.default, str):
                     default = sa.text(col.default)
 
-            if isinstance(col.type, str) and col.type.lower() == 'serial':
-                col.is_primary_key = True
-                col.type = 'INT'
+            col_type = col.type
+            is_primary_key = col.is_primary_key
+            if isinstance(col_type, str) and col_type.lower() == 'serial':
+                is_primary_key = True
+                col_type = 'INT'
 
             kwargs = {
-                'primary_key': col.is_primary_key,
+                'primary_key': is_primary_key,
                 'server_default': default,
             }
             if col.nullable is not None:
@@ -597,7 +623,7 @@ class SqlalchemyRender:
             columns.append(
                 sa.Column(
                     col.name,
-                    self.get_type(col.type),
+                    self.get_type(col_type),
                     **kwargs
                 )
             )
